@@ -420,6 +420,7 @@ impl BytecodeBuilder {
                 | Op::CreateAsyncGenerator { .. }
                 | Op::Throw { .. }
                 | Op::PopTry
+                | Op::FinallyStart { .. }
                 | Op::FinallyEnd
                 | Op::GetException { .. }
                 | Op::Rethrow
